@@ -254,6 +254,25 @@ var bitLemmas = []bitLemma{
 		Proof: func(k int) string {
 			return "(= " + popD(fmt.Sprintf("(bvand w (bvlshr %s #x%016x))", ones, k)) + " " + wcntD("w", 64-k) + ")"
 		}},
+	{Name: "lowest-set-bit", PerK: true,
+		Axiom: "(forall ((w (_ BitVec 64))) (! (=> (not (= w " + zero + ")) (= (bvand w (bvneg w)) " + shl1("(bvtz w)") + ")) :pattern ((bvand w (bvneg w)))))",
+		Proof: func(k int) string {
+			low := forallJ(func(j int) string {
+				if j < k {
+					return "(not " + bitD("w", j) + ")"
+				}
+				return "true"
+			})
+			return "(=> (and " + bitD("w", k) + " " + low + ") (= (bvand w (bvneg w)) " + kc(k) + "))"
+		}},
+	{Name: "popcnt-low-mask", PerK: true,
+		Axiom: "(forall ((k Int)) (! (=> " + kRange + " (= (popcnt (bvsub " + shl1("k") + " " + one + ")) k)) :pattern ((popcnt (bvsub " + shl1("k") + " " + one + ")))))",
+		Proof: func(k int) string {
+			return fmt.Sprintf("(= %s %d)", popD("(bvsub "+kc(k)+" "+one+")"), k)
+		}},
+	{Name: "wordeq-def",
+		Axiom: "(forall ((a (_ BitVec 64)) (b (_ BitVec 64))) (! (= (wordeq a b) (= a b)) :pattern ((wordeq a b))))",
+		Assumed: "definition of the spec builtin wordeq(a,b): a == b (exists to give the extensionality fact a trigger)"},
 	{Name: "iadd-increment-idiom", PerK: true,
 		Axiom: "(forall ((w (_ BitVec 64)) (k Int)) (! (=> " + kRange + " (= (bv2nat (bvlshr (bvxor w (bvor w " + shl1("k") + ")) (shamt k))) (ite (bitU w k) 0 1))) :pattern ((bvlshr (bvxor w (bvor w " + shl1("k") + ")) (shamt k)))))",
 		Proof: func(k int) string {
